@@ -1,7 +1,8 @@
 (* C06 — evaluation of the gate and route models on observed cases (used by the generated case
    file work/C06/CasesC06.v; executable definitions only). *)
 From Coq Require Import ZArith List Bool String Uint63.
-From KM Require Import Base.Bytes Base.Pack Model.Auth Model.AuthGate Model.Routes.
+From KM Require Import Base.Bytes Base.Pack Model.Auth Model.AuthGate Model.Routes Model.GateObs.
+From KM Require Model.IPExt.
 Import ListNotations.
 Open Scope N_scope.
 
@@ -25,6 +26,12 @@ Definition get_deny (denies : list (list N)) (i : N) : list N := nth (N.to_nat i
 Definition ck (t : token) (b : option basicx) : credx := {| k_cookie := Some t; k_basic := b |}.
 Definition nock (b : option basicx) : credx := {| k_cookie := None; k_basic := b |}.
 Definition bas (u : N) (ok : bool) : option basicx := Some {| b_user := u; b_ok := ok; b_err := false |}.
+(* the address side of a certificate: netblocks as minted (a.b.c.d/p), the extension made of them, peers *)
+Definition blk (a b c d p : N) : IPExt.netblock := IPExt.mk a b c d p.
+Definition xext (l : list IPExt.netblock) : option (list IPExt.family) := Some (IPExt.ext_of l).
+Definition p4 (a b c d : N) : IPExt.peer := IPExt.V4 a b c d.
+Definition p6 : IPExt.peer := IPExt.V6other.
+Definition pgarbage : IPExt.peer := IPExt.Garbage.
 Definition mkreq (sh : shape_t) (m o : N) : reqx :=
   {| q_meth := meth_of m; q_origin := origin_of o; q_tls := fst sh; q_cred := snd sh |}.
 
@@ -45,6 +52,17 @@ Definition gate_bad (shapes : list shape_t) (denies : list (list N)) (now : Z) (
   | Refuse mcode => negb ((adm =? 0) && (mcode =? code))
   end.
 
+(* the property's predicate on the OBSERVATION of a direct call: the implementation admitted (u, l) while
+   the conclusion of c06_gate_sound - the request proves (u, l), l shares a bit with the mask, no foreign
+   origin on a non-GET - is false for this request (Model/GateObs.v gate_conclusion = that conclusion,
+   Proofs/GateObs.v gate_conclusion_iff) *)
+Definition gate_violating (shapes : list shape_t) (denies : list (list N)) (now : Z) (c : gate_case) : bool :=
+  let a := N_of_int (fst c) in let b := N_of_int (snd c) in
+  let s := fld a 0 10 in let m := fld a 10 2 in let o := fld a 12 2 in let req := fld a 14 16 in
+  let adm := fld a 30 1 in let u := fld a 31 8 in let dl := fld a 39 6 in
+  let l := fld b 0 16 in
+  (adm =? 1) && negb (gate_conclusion now (get_deny denies dl) req (mkreq (get_shape shapes s) m o) u l).
+
 (* probes through the service mux: shape(10) method(2) origin(2) target user(8) own credential
    present(1) user recorded by the access log(8, 0 = none) observed effects(4) deny list(6) *)
 Definition route_case := int.
@@ -61,6 +79,22 @@ Definition route_bad (shapes : list shape_t) (denies : list (list N)) (now : Z) 
       negb ((if has_auth (rt_steps r) && negb (u =? 255) then mu =? u else true) && (N.land e (effs_code effs) =? e))
   end.
 
+(* the property's predicate on the OBSERVATION of a probe: a protected effect was seen while the request is
+   not accepted by the route's declared gate (the conclusion of c06_routes, Proofs/GateObs.v acceptsb_iff),
+   or a masked route logged an identity that no credential of the request establishes at an accepted level *)
+Definition route_violating (shapes : list shape_t) (denies : list (list N)) (now : Z) (webui : N) (r : option row) (c : route_case) : bool :=
+  let w := N_of_int c in
+  let s := fld w 0 10 in let m := fld w 10 2 in let o := fld w 12 2 in let t := fld w 14 8 in
+  let own := fld w 22 1 in let u := fld w 23 8 in let e := fld w 31 4 in let dl := fld w 35 6 in
+  match r with
+  | None => negb (e =? 0)
+  | Some r =>
+      let env := mkenv now webui (get_deny denies dl) t own in
+      let q := mkreq (get_shape shapes s) m o in
+      (negb (e =? 0) && negb (acceptsb env q (rt_gate r))) ||
+      (has_auth (rt_steps r) && negb (u =? 0) && negb (u =? 255) &&
+       match rt_gate r with GMask mk _ => negb (identity_okb env q mk u) | _ => false end)
+  end.
 
 (* indices (as binary numbers: cheap to print whatever their size) of the failing cases, at most
    the first 20, and how many there are *)
@@ -76,21 +110,93 @@ Definition count_all {A} (l : list A) : N := fold_left (fun a _ => N.succ a) l 0
 
 (* cases are evaluated chunk by chunk (no large list is ever kept as a term): per chunk the number
    of cases, the number of failing ones and the global indices of the first failing ones *)
-Definition chunk_result := (N * N * list N)%type.
-Definition eval_chunk (offset : N) (verdicts : list bool) : chunk_result :=
-  (count_all verdicts, count_true verdicts, bad_from verdicts offset 20).
+Definition chunk_result := (N * N * list N * list N)%type.
+Definition eval_chunk (offset : N) (verdicts : list (bool * bool)) : chunk_result :=
+  (count_all verdicts, count_true (map fst verdicts), bad_from (map fst verdicts) offset 20,
+   bad_from (map snd verdicts) offset 20).
 Definition merge_chunks (rs : list chunk_result) : chunk_result :=
   fold_left (fun (acc r : chunk_result) =>
-               let '(n, b, l) := acc in let '(n', b', l') := r in
-               (n + n', b + b', firstn 20 (l ++ l'))) rs (0, 0, []).
-Definition chunk_total (r : chunk_result) : N := fst (fst r).
-Definition chunk_bad (r : chunk_result) : N := snd (fst r).
-Definition chunk_first (r : chunk_result) : list N := snd r.
+               let '(n, b, l, v) := acc in let '(n', b', l', v') := r in
+               (n + n', b + b', firstn 20 (l ++ l'), firstn 20 (v ++ v'))) rs (0, 0, [], []).
+Definition chunk_total (r : chunk_result) : N := fst (fst (fst r)).
+Definition chunk_bad (r : chunk_result) : N := snd (fst (fst r)).
+Definition chunk_first (r : chunk_result) : list N := snd (fst r).
+(* among the mismatching cases, those whose observation violates the property *)
+Definition chunk_violating (r : chunk_result) : list N := snd r.
 Definition route_chunk (shapes : list shape_t) (denies : list (list N)) (now : Z) (offset : N) (key : string) (webui : N)
            (cs : list route_case) : chunk_result :=
-  let r := find_row key in eval_chunk offset (map (route_bad shapes denies now webui r) cs).
+  let r := find_row key in
+  eval_chunk offset (map (fun c => let bad := route_bad shapes denies now webui r c in
+                                   (bad, if bad then route_violating shapes denies now webui r c else false)) cs).
 Definition gate_chunk (shapes : list shape_t) (denies : list (list N)) (now : Z) (offset : N) (cs : list gate_case) : chunk_result :=
-  eval_chunk offset (map (gate_bad shapes denies now) cs).
+  eval_chunk offset (map (fun c => let bad := gate_bad shapes denies now c in
+                                   (bad, if bad then gate_violating shapes denies now c else false)) cs).
+
+(* ---- the time window of the session cookie at its boundaries.  Each case carries the claims of a
+   token minted for that very request (seconds, as signed) and the two clock readings taken around the
+   request (NANOSECONDS: the code compares time.Unix(exp, 0) with time.Now(), and nbf with
+   time.Now().Unix()).  The model's window test is exact; the only tolerance is the measured interval:
+   the observation must be the model's answer for the reading before the request, the reading after it,
+   or a whole second in between (the answer as a function of the reading changes at whole seconds only). *)
+Definition ns (s : Z) : Z := (s * 1000000000)%Z.
+Definition wtoken (nbf exp iat : Z) (sub level : N) : token :=
+  {| t_signer_trusted := true; t_alg_allowed := true; t_tampered := false; t_iss_ok := true; t_aud_ok := true;
+     t_kind := 0; t_nbf := ns nbf; t_exp := ns exp; t_iat := ns iat; t_sub := sub; t_level := level |}.
+Definition instants (b a : Z) : list Z :=
+  b :: a :: map (fun k => ns (b / 1000000000 + 1 + Z.of_nat k)) (seq 0 (Z.to_nat (a / 1000000000 - b / 1000000000))).
+
+Record wcase := WC {
+  w_nbf : Z; w_exp : Z; w_iat : Z;      (* the signed claims, seconds *)
+  w_sub : N; w_level : N;
+  w_basic : N;                          (* Authorization: Basic next to the cookie: 0 none, 1 alice good, 2 alice wrong *)
+  w_b : Z; w_a : Z }.                   (* clock before / after the request, nanoseconds *)
+Definition wreq (c : wcase) (m o : N) : reqx :=
+  mkreq (None, {| k_cookie := Some (wtoken (w_nbf c) (w_exp c) (w_iat c) (w_sub c) (w_level c));
+                  k_basic := if w_basic c =? 0 then None else bas 1 (w_basic c =? 1) |}) m o.
+
+(* direct call of checkAuth *)
+Record wgate := WG { wg_c : wcase; wg_mask : N; wg_meth : N; wg_origin : N;
+                     wg_adm : N; wg_user : N; wg_lvl : N; wg_code : N; wg_iat : Z (* IssuedAt, seconds *) }.
+Definition wgate_ok_at (g : wgate) (now : Z) : bool :=
+  match check_auth now true [] (wg_mask g) (wreq (wg_c g) (wg_meth g) (wg_origin g)) with
+  | Admit mu ml miat => (wg_adm g =? 1) && (mu =? wg_user g) && (ml =? wg_lvl g) && (miat =? ns (wg_iat g))%Z
+  | Refuse code => (wg_adm g =? 0) && (code =? wg_code g)
+  end.
+Definition wgate_bad (g : wgate) : bool := negb (existsb (wgate_ok_at g) (instants (w_b (wg_c g)) (w_a (wg_c g)))).
+(* admitted although at NO clock reading of the measured interval the conclusion of c06_gate_sound holds *)
+Definition wgate_violating (g : wgate) : bool :=
+  wgate_bad g && (wg_adm g =? 1) &&
+  negb (existsb (fun now => gate_conclusion now [] (wg_mask g) (wreq (wg_c g) (wg_meth g) (wg_origin g)) (wg_user g) (wg_lvl g))
+                (instants (w_b (wg_c g)) (w_a (wg_c g)))).
+
+(* through a route of the service mux *)
+Record wroute := WR { wr_c : wcase; wr_key : string; wr_webui : N; wr_meth : N; wr_origin : N; wr_target : N;
+                      wr_user : N; wr_eff : N }.
+Definition wroute_ok_at (w : wroute) (now : Z) : bool :=
+  match find_row (wr_key w) with
+  | None => false
+  | Some r =>
+      let '(id, effs) := run (mkenv now (wr_webui w) [] (wr_target w) 0) (wreq (wr_c w) (wr_meth w) (wr_origin w)) (rt_steps r) None in
+      let mu := match id with Some (u', _) => u' | None => 0 end in
+      (if has_auth (rt_steps r) && negb (wr_user w =? 255) then mu =? wr_user w else true) &&
+      (N.land (wr_eff w) (effs_code effs) =? wr_eff w)
+  end.
+Definition wroute_bad (w : wroute) : bool := negb (existsb (wroute_ok_at w) (instants (w_b (wr_c w)) (w_a (wr_c w)))).
+Definition wroute_violating (w : wroute) : bool :=
+  wroute_bad w &&
+  match find_row (wr_key w) with
+  | None => negb (wr_eff w =? 0)
+  | Some r =>
+      let q := wreq (wr_c w) (wr_meth w) (wr_origin w) in
+      let envat now := mkenv now (wr_webui w) [] (wr_target w) 0 in
+      let ins := instants (w_b (wr_c w)) (w_a (wr_c w)) in
+      (negb (wr_eff w =? 0) && negb (existsb (fun now => acceptsb (envat now) q (rt_gate r)) ins)) ||
+      (has_auth (rt_steps r) && negb (wr_user w =? 0) && negb (wr_user w =? 255) &&
+       match rt_gate r with
+       | GMask mk _ => negb (existsb (fun now => identity_okb (envat now) q mk (wr_user w)) ins)
+       | _ => false
+       end)
+  end.
 
 (* getRequiredWebUIAuthLevel() of a loaded configuration = webui_level of its backend list
    (backends travel as 0 password, 1 federated, 2 U2F, 3 SymantecVIP, 4 TOTP, 5 Okta2FA, 6 bootstrap OTP, other) *)
